@@ -44,6 +44,11 @@ def leaf_kind(facts, n, mode):
     if f is None:
         return None
     name = f["name"]
+    if f.get("local") and not f.get("trait") and name not in ("write_u64_limited", "read_u64_limited"):
+        d = f.get("inst") if f.get("inst") in facts.hir else f["def"]
+        it = facts.items.get(d)
+        if it is not None and not it.get("impl_trait") and d in facts.hir and d not in _members(facts):
+            return None          # a private helper: its body is expanded in place (see grammar / size_grammar)
     if mode in ("w", "r") and name in ("write_all", "read_exact") and f["def"].startswith("std::io::"):
         a = node_args(n)
         t = norm_ty(facts.ty(a[-1])) if a else ""
@@ -93,6 +98,10 @@ def guard_names(e):
     return frozenset(n for n in names if n not in ("self", "unwrap", "len", "iter"))
 
 
+_DEPTH = [0]
+_SCHEME = [None]
+
+
 def grammar(facts, node, mode):
     """List of grammar items for the subtree (evaluation order)."""
     if node is None or not isinstance(node, dict):
@@ -104,6 +113,25 @@ def grammar(facts, node, mode):
         for a in ([node.get("recv")] if k == "MCall" else []) + node.get("args", []):
             inner += grammar(facts, a, mode)
         return inner + [lk]
+    if k in ("Call", "MCall") and _helper(facts, node) is not None and _DEPTH[0] < 3:
+        inner = []
+        for a in ([node.get("recv")] if k == "MCall" else []) + node.get("args", []):
+            inner += grammar(facts, a, mode)
+        hb = _helper(facts, node)
+        if _SCHEME[0] not in (None, "-"):
+            hb = project.project(facts, hb, _SCHEME[0])
+        _DEPTH[0] += 1
+        try:
+            return inner + grammar(facts, hb, mode)
+        finally:
+            _DEPTH[0] -= 1
+    if k == "MCall" and node.get("name") in ("map", "and_then", "map_err", "ok_or", "ok_or_else", "or_else", "unwrap_or_else") \
+            and re.match(r"^(std|core)::(result::Result|option::Option)<", norm_ty(facts.ty(node["recv"]))):
+        out = grammar(facts, node["recv"], mode)
+        for a in node["args"]:
+            a0 = strip(a)
+            out += grammar(facts, a0["body"], mode) if a0.get("k") == "Closure" else grammar(facts, a, mode)
+        return out
     if k in ("For", "While", "Loop"):
         body = grammar(facts, node.get("body"), mode)
         pre = grammar(facts, node.get("iter"), mode) if k == "For" else grammar(facts, node.get("c"), mode)
@@ -217,90 +245,173 @@ def fixed_bytes(items):
     return (total, tuple(sorted(unknown)), tuple(alts), var)
 
 
-def size_grammar(facts, node):
-    """Grammar of a size function: leaves from serialized_size()/size_of, literal byte counts added to the
-    accumulator, products => variable terms."""
-    items = []
+def size_grammar(facts, node, depth=0):
+    """Grammar of a size function, by abstract evaluation of its body over symbolic sums: every local holds a list of
+    wire items (leaves from serialized_size()/size_of, literal byte counts, Rep for products / loops / iterator sums,
+    Alt for conditionals); `x += e` appends, loops wrap what they append in Rep, conditionals in Alt; the result is the
+    value of the tail expression (or of the returned local).  Local helper functions are evaluated in place."""
 
-    def term(e):
+    def lit(e):
+        m = re.match(r"^\d+", e.get("v", ""))
+        return int(m.group(0)) if m else None
+
+    def term(e, env):
         e = strip(e)
         k = e.get("k")
         lk = leaf_kind(facts, e, "s")
         if lk is not None:
             return [lk]
-        if k == "Lit" and re.match(r"^\d+", e.get("v", "")):
-            return [("bytes", int(re.match(r"^\d+", e["v"]).group(0)))]
+        if k == "Lit" and lit(e) is not None:
+            return [("bytes", lit(e))]
         if k == "Bin" and e["op"] == "+":
-            return term(e["a"]) + term(e["b"])
+            return term(e["a"], env) + term(e["b"], env)
         if k == "Bin" and e["op"] in ("*", "/"):
-            return [("rep", tuple(x for x in term(e["a"]) + term(e["b"]) if x[0] in ("T", "lim")))]
+            return [("rep", tuple(x for x in term(e["a"], env) + term(e["b"], env) if x[0] in ("T", "lim")))]
         if k == "Index":
             return [("lim",)] if "limit" in (local_of(e["e"]) or (0, ""))[1] else [("rep", ())]
         if k == "Path":
+            if e.get("res") == "local" and e["lid"] in env:
+                return list(env[e["lid"]])
             return [("rep", ())]     # a runtime quantity
+        if k == "Try":
+            return term(e["e"], env)
+        if k in ("Call", "MCall") and _helper(facts, e) is not None and depth < 3:
+            hb = _helper(facts, e)
+            if _SCHEME[0] not in (None, "-"):
+                hb = project.project(facts, hb, _SCHEME[0])
+            return size_grammar(facts, hb, depth + 1)
         if k == "MCall":
+            name = e.get("name")
+            if name == "fold" and len(e["args"]) == 2 and strip(e["args"][1]).get("k") == "Closure":
+                cl = strip(e["args"][1])
+                env2 = dict(env)
+                if cl.get("params") and cl["params"][0].get("k") == "PBind":
+                    env2[cl["params"][0]["lid"]] = []          # the accumulator contributes what the body adds to it
+                inner = value(cl["body"], env2)
+                return term(e["args"][0], env) + ([("rep", tuple(inner))] if inner else [("rep", ())])
             inner = []
             for a in [e["recv"]] + e["args"]:
-                inner += [x for x in term(a) if x[0] != "rep" or x[1]]
-            if e.get("name") in ("sum", "map", "iter", "zip", "fold"):
+                inner += [x for x in term(a, env) if x[0] != "rep" or x[1]]
+            if name in ("sum", "map", "iter", "zip", "fold"):
                 return [("rep", tuple(inner))] if inner else [("rep", ())]
             return inner or [("rep", ())]
+        if k == "Call":
+            return [("rep", ())]
         if k == "Closure":
-            return [("rep", tuple(term_block(e["body"])))]
-        if k == "Block":
-            return term_block(e)
+            return [("rep", tuple(value(e["body"], dict(env))))]
+        if k in ("Block", "If", "Match"):
+            return value(e, env)
         if k == "Cast":
-            return term(e["e"])
+            return term(e["e"], env)
         return [("rep", ())]
 
-    def term_block(b):
-        b = strip(b)
-        if b.get("k") != "Block":
-            return term(b)
-        out = []
-        for st in b.get("stmts", []):
-            out += stmt(st)
-        if b.get("expr"):
-            e = strip(b["expr"])
-            if not (e.get("k") == "Path"):
-                out += expr_stmt(e)
-        return out
+    def suffix(new, old):
+        return tuple(new[len(old):]) if new[:len(old)] == old else tuple(new)
 
-    def expr_stmt(e):
+    def merge(env, envs, guard):
+        """join branch environments: a local extended differently by the branches gets an Alt of the extensions"""
+        for lid in set().union(*[set(x) for x in envs]):
+            old = env.get(lid, [])
+            sufs = [suffix(x.get(lid, old), old) for x in envs]
+            if all(sf == sufs[0] for sf in sufs):
+                env[lid] = old + list(sufs[0]) if all(x.get(lid, old)[:len(old)] == old for x in envs) else list(envs[0].get(lid, old))
+            elif any(sufs):
+                env[lid] = old + [("alt", guard, tuple(sufs))]
+
+    def exec_(e, env):
         e = strip(e)
         k = e.get("k")
         if k == "AssignOp" and e.get("op", "").startswith("+"):
-            return term(e["rhs"])
-        if k == "If":
-            th = tuple(term_block(e["th"]))
-            el = tuple(term_block(e["el"])) if e.get("el") else ()
-            if not th and not el:
-                return []
-            return [("alt", guard_names(e["c"]), (th, el))]
-        if k == "Match":
-            arms = [tuple(term_block(a["body"])) for a in e["arms"]]
-            if not any(arms):
-                return []
-            return [("alt", guard_names(e["e"]), tuple(arms))]
-        if k in ("For", "While", "Loop"):
-            body = term_block(e["body"])
-            return [("rep", tuple(body))] if body else []
+            lo = local_of(e["lhs"])
+            if lo:
+                env[lo[0]] = env.get(lo[0], []) + term(e["rhs"], env)
+        elif k == "Assign":
+            lo = local_of(e["lhs"])
+            if lo:
+                env[lo[0]] = term(e["rhs"], env)
+        elif k == "If":
+            et, ee = dict(env), dict(env)
+            value(e["th"], et)
+            if e.get("el"):
+                value(e["el"], ee)
+            merge(env, [et, ee], guard_names(e["c"]))
+        elif k == "Match":
+            envs = []
+            for a in e["arms"]:
+                ea = dict(env)
+                value(a["body"], ea)
+                envs.append(ea)
+            merge(env, envs, guard_names(e["e"]))
+        elif k in ("For", "While", "Loop"):
+            eb = dict(env)
+            value(e["body"], eb)
+            for lid in eb:
+                old = env.get(lid, [])
+                sf = suffix(eb[lid], old)
+                if sf and lid in env:
+                    env[lid] = old + [("rep", sf)]
+        elif k == "Block":
+            value(e, env)
+
+    def value(b, env):
+        """evaluate a block (or expression) in env; -> items of its value"""
+        b = strip(b)
+        k = b.get("k")
         if k == "Block":
-            return term_block(e)
-        if k in ("MCall", "Call", "Bin", "Lit", "Cast", "Index"):
-            return term(e)
-        return []
-
-    def stmt(st):
-        k = st.get("k")
-        if k == "Let":
-            pat = st["pat"]
-            if pat.get("k") == "PBind" and pat.get("name") in ("size", "total", "bytes", "ret", "result", "s") and "init" in st:
-                return term(st["init"])
+            for st in b.get("stmts", []):
+                if st.get("k") == "Let":
+                    if st["pat"].get("k") == "PBind" and "init" in st:
+                        env[st["pat"]["lid"]] = term(st["init"], env)
+                else:
+                    exec_(st.get("e") or {}, env)
+            if b.get("expr"):
+                return value(b["expr"], env)
             return []
-        return expr_stmt(st.get("e"))
+        if k == "If" and b.get("el") and facts.ty(b) not in ("()", "!"):
+            th = tuple(value(b["th"], dict(env)))
+            el = tuple(value(b["el"], dict(env)))
+            return list(th) if th == el else [("alt", guard_names(b["c"]), (th, el))]
+        if k == "Match" and facts.ty(b) not in ("()", "!"):
+            arms = [tuple(value(a["body"], dict(env))) for a in b["arms"] if facts.ty(a["body"]) != "!"]
+            if arms and all(x == arms[0] for x in arms):
+                return list(arms[0])
+            return [("alt", guard_names(b["e"]), tuple(arms))]
+        if k in ("If", "Match", "For", "While", "Loop", "AssignOp", "Assign"):
+            exec_(b, env)
+            return []
+        if k == "Ret":
+            return term(b["e"], env) if b.get("e") else []
+        return term(b, env)
 
-    return term_block(node)
+    items = value(node, {})
+    # drop empty runtime placeholders that carry no information next to real items
+    return [x for x in items if not (x[0] == "rep" and not x[1])] or items
+
+
+def _helper(facts, e):
+    """body of a crate-local helper function that is not itself one side of a serialization triple"""
+    f = callee(e)
+    if not f or not f.get("local") or f.get("trait"):
+        return None
+    d = f.get("inst") if f.get("inst") in facts.hir else f["def"]
+    it = facts.items.get(d)
+    if d not in facts.hir or it is None or it.get("impl_trait") or d in _members(facts):
+        return None
+    return facts.hir[d]
+
+
+_MEMBERS = {}
+
+
+def _members(facts):
+    key = id(facts)
+    if key not in _MEMBERS:
+        m = set()
+        for g in triples(facts).values():
+            m.update(g.values())
+        _MEMBERS.clear()
+        _MEMBERS[key] = m
+    return _MEMBERS[key]
 
 
 def triples(facts):
@@ -337,6 +448,8 @@ def run(facts, rep):
             n += 1
             for p in g.values():
                 rep.fn(p)
+
+            _SCHEME[0] = sc
 
             def body(p):
                 return project.project(facts, facts.hir[p], sc) if sc != "-" else facts.hir[p]
